@@ -347,7 +347,9 @@ def prune_non_float_tensors(graph: Graph) -> Graph:
             continue
 
         if not n.meta.get("outputs_float_tensor", False):
-            float_tensor_args = _filter_float_tensors(n.args)
+            float_tensor_args = _filter_float_tensors(
+                [*n.args, *n.kwargs.values()]  # (inputs given by keyword count too)
+            )
             a = float_tensor_args[0] if len(float_tensor_args) == 1 else None
             logger.info("pruning non-float node: %s", n)
             _prune(graph, n, replacement_arg=a)
@@ -396,7 +398,7 @@ def prune_same_scale_tensors(graph: Graph, rtol: float = 2**-16) -> Graph:
         if n.op == "output" or not n.meta.get("outputs_float_tensor", False):
             continue
 
-        float_tensor_args = _filter_float_tensors(n.args)
+        float_tensor_args = _filter_float_tensors([*n.args, *n.kwargs.values()])
         if len(float_tensor_args) == 1:
             a = float_tensor_args[0]
             a_metrics = a.meta["metrics"]
